@@ -25,10 +25,11 @@ import (
 	"golang.org/x/tools/go/ssa/ssautil"
 )
 
-const (
-	repoDir  = "/repo"
-	verifDir = "/verif"
-)
+// repoDir is the tree under verification: /repo, or the scratch worktree named by VERIF_REPO (used to run the
+// checks against seeded changes without touching /repo).
+var repoDir = envOr("VERIF_REPO", "/repo")
+
+const verifDir = "/verif"
 
 type Finding struct {
 	Kind     string // finding | fixed
@@ -48,10 +49,14 @@ type targetPkg struct {
 	pkgName string
 }
 
-var targets = map[string]targetPkg{
+var targets = makeTargets()
+
+func makeTargets() map[string]targetPkg {
+	return map[string]targetPkg{
 	"schema":  {"schema", "go.flow.arcalot.io/pluginsdk/schema", repoDir + "/schema", repoDir, "schema"},
 	"atp":     {"atp", "go.flow.arcalot.io/pluginsdk/atp", repoDir + "/atp", repoDir, "atp"},
 	"codegen": {"codegen", "codegen", repoDir + "/cmd/arcaflow-codegen", repoDir + "/cmd/arcaflow-codegen", "main"},
+	}
 }
 
 func goEnv() []string {
@@ -241,7 +246,7 @@ func explore(ld *loaded, entries []*ssa.Function, cfg *Config, workers int, maxP
 				stack = stack[:len(stack)-1]
 				active++
 				total++
-				over := total > maxPaths
+				over := total > maxPaths || time.Now().After(exploreDeadline)
 				mu.Unlock()
 				if over {
 					mu.Lock()
@@ -364,6 +369,7 @@ type nativeOutcome struct {
 }
 
 var batchCounter int64
+var exploreDeadline time.Time
 
 type replayer struct {
 	work   string
@@ -699,6 +705,7 @@ func runCheck(mode string, args []string) {
 	cross := fs.String("cross", "", "second solver for assertion queries")
 	timeout := fs.Duration("timeout", 0, "per-query solver timeout")
 	maxPaths := fs.Int("maxpaths", 0, "path limit")
+	maxTime := fs.Duration("maxtime", 0, "wall-clock limit for the exploration phase")
 	noEvidence := fs.Bool("noevidence", false, "do not write the evidence file")
 	var muts multiFlag
 	fs.Var(&muts, "mutate", "file|old|new (self-test: overlay a mutated source file)")
@@ -724,6 +731,13 @@ func runCheck(mode string, args []string) {
 			*maxPaths = 600000
 		}
 	}
+	if *maxTime == 0 {
+		*maxTime = 12 * time.Minute
+		if tierN == 1 {
+			*maxTime = 90 * time.Minute
+		}
+	}
+	exploreDeadline = time.Now().Add(*maxTime)
 	if tierN == 1 && *cross == "" && os.Getenv("VERIF_NOCROSS") == "" {
 		*cross = "z3-new"
 	}
@@ -1145,7 +1159,7 @@ func runCheck(mode string, args []string) {
 	fmt.Printf("gosmt: %s: %d paths (%d ok, %d panic, %d dead, %d unsupported, %d unwind, %d aborted), %d assertion queries (%d unsat, %d sat, %d unknown), %d witnesses replayed (%d mismatched), %d CEs confirmed, %d spurious, %d new violations; solver %.1fs in %d queries; wall %.1fs\n",
 		*prop, nPaths, nOK, nPanic, nDead, nUnsup, nUnwind, nAbort, st.assertQ, st.assertUns, st.assertSat, st.unknown, matched+mismatched, mismatched, len(confirmed), spurious, violations, st.solverS, st.queries, wall)
 	if st.truncated {
-		fmt.Printf("  INCOMPLETE: path limit %d reached; the bound was not fully explored\n", *maxPaths)
+		fmt.Printf("  INCOMPLETE: path limit %d or time limit %s reached; the bound was not fully explored\n", *maxPaths, *maxTime)
 	}
 	if nUnsup > 0 || nAbort > 0 {
 		fmt.Printf("  INCONCLUSIVE: %d paths ended in constructs the engine does not support, %d aborted; they are not counted as verified\n", nUnsup, nAbort)
